@@ -87,8 +87,8 @@ SmokeActs == {A("T", d, 0, 0) : d \in States} \cup {A("X", 0, 0, 0), A("S", NONE
 \* requests and guards: every request source, every guard decision over successive rounds
 GuardOpsQ == {O("ctor"), O("dtor"), O("enter"), O("exit"), O("update")} \cup {Op("ito", d, 0, 0) : d \in States}
 TinyOps == {O("ctor"), O("dtor"), O("update"), Op("ito", 1, 0, 0)}
-TourOps == {O("ctor"), O("dtor"), O("update"), Op("react", 1, 0, 0), Op("ito", 1, 0, 0), Op("ito", 0, 0, 0), Op("to", 1, 0, 0), Op("pc", 0, 1, 0), Op("succeed", 0, 0, 0), Op("rt", 0, 0, 0)}
-TourActs == {A("T", 0, 0, 0), A("T", 1, 0, 0), A("X", 0, 0, 0), A("S", NONE, 0, 0), A("F", NONE, 0, 0)}
+TourOps == {O("ctor"), O("dtor"), O("update"), Op("ito", 1, 0, 0), Op("to", 0, 0, 0)}
+TourActs == {A("T", 0, 0, 0), A("T", 1, 0, 0), A("X", 0, 0, 0)}
 TourPoints == {<<M_UPDATE, ANY>>, <<M_ENTRY_GUARD, ANY>>, <<M_EXIT_GUARD, ANY>>}
 TourView == <<st, lbl>>
 TinyActs == {A("T", 0, 0, 0), A("X", 0, 0, 0)}
